@@ -341,6 +341,45 @@ theorem file_record_roundtrip (LF : CodecLaws F RF) (LP : CodecLaws P RP) (LI : 
     (fun r hr => by obtain ⟨l, hl, rfl⟩ := List.mem_map.mp hr; exact (sT l hl).2)
     (fun r hr => by obtain ⟨l, hl, rfl⟩ := List.mem_map.mp hr; exact (sH l hl).2)
 
+/-- `From<BeatmapState> for Beatmap` copies the record fields (whenever finalisation succeeds). -/
+theorem finish_records (st : BeatmapState F P) (b : Beatmap F P) (h : st.finish = .ok b) :
+    b.formatVersion = (recView st).version ∧ b.general = (recView st).general ∧ b.editor = (recView st).editor ∧
+    b.metadata = (recView st).metadata ∧ b.difficulty = (recView st).difficulty.difficulty ∧
+    b.events = (recView st).events ∧ b.colors = (recView st).colors := by
+  unfold BeatmapState.finish at h
+  cases hho : st.hitObjects.finish with
+  | error e => simp [hho, bind, Except.bind] at h
+  | ok ho =>
+    simp only [hho, bind, Except.bind, pure, Except.pure] at h
+    injection h with h
+    subst h
+    unfold HitObjectsState.finish at hho
+    simp only [bind, Except.bind, pure, Except.pure] at hho
+    split at hho
+    · cases hho
+    · injection hho with hho
+      subst hho
+      exact ⟨rfl, rfl, rfl, rfl, rfl, rfl, rfl⟩
+
+/-- **decoded_records_roundtrip**: … and if finalisation of that state succeeds, the re-decoded `Beatmap` has exactly
+the original map's record fields on the preserved view. -/
+theorem decoded_records_roundtrip (LF : CodecLaws F RF) (LP : CodecLaws P RP) (LI : IntPrintLaw F) (m : Beatmap F P)
+    (hm : RepRecords RF RP m) (t : Str) (T H : List Str) (h : encode m = .ok t)
+    (hT : encodeTimingPoints m = .ok (unlines (str "[TimingPoints]" :: T)))
+    (hH : encodeHitObjects m = .ok (unlines (str "[HitObjects]" :: H)))
+    (sT : ListBlockShape T) (sH : ListBlockShape H) :
+    ∃ st : BeatmapState F P, decodeBytes beatmapDecoder (utf8Encode t) = .ok st ∧
+      ∀ m2 : Beatmap F P, st.finish = .ok m2 →
+        m2.formatVersion = m.formatVersion ∧
+        m2.general = RtGeneral.preservedGeneral m.general (RtGeneral.sampleSetOf m.controlPoints) ∧
+        m2.editor = m.editor ∧ m2.metadata = RtMetadata.preservedMetadata m.metadata ∧ m2.difficulty = m.difficulty ∧
+        m2.events = m.events ∧ m2.colors = RtColours.preservedColors m.colors := by
+  obtain ⟨st, hst, hv⟩ := file_record_roundtrip LF LP LI m hm t T H h hT hH sT sH
+  refine ⟨st, hst, fun m2 h2 => ?_⟩
+  have := finish_records st m2 h2
+  rw [hv] at this
+  exact this
+
 end
 
 end RtFile
